@@ -14,6 +14,9 @@ from ..gen.render import Renderer
 from ..run import Stats, hyp_run, mix, rng_for
 from ..strict import canon, is_cyclic, jeq, short, walk
 
+from ..ref import rfc6901 as P6901
+from ..ref import rfc6902 as R6902
+
 import jsonpath
 from jsonpath import JSONPatch, JSONPatchError, JSONPatchTestFailure
 
@@ -143,6 +146,36 @@ def judge(stats: Stats, text, doc, origin):
                 stats.fail("remove:raised:%s" % type(r).__name__, c, "remove(%r) on %s raised %s: %s" % (str(ptr), short(doc, 160), type(r).__name__, r))
             elif not jeq(r, want):
                 stats.fail("remove:wrong-document", c, "remove(%r) on %s gave %s, expected %s" % (str(ptr), short(doc, 160), short(r, 200), short(want, 200)))
+        # one pointer object as the target of several operations of one patch, with a structural edit in between: every operation
+        # addresses the document as the earlier operations left it (RFC 6902 applies operations in sequence)
+        ks = [k for k, x in enumerate(parts) if isinstance(x, int)]
+        if ks:
+            k = ks[0]
+            arr_text = P6901.encode([str(x) for x in parts[:k]])
+            arr = walk(doc, parts[:k])
+            for shift in ({"op": "add", "path": arr_text + "/0", "value": "shifted"},
+                          {"op": "remove", "path": arr_text + "/0"} if parts[k] + 1 < len(arr) else None):
+                if shift is None:
+                    continue
+                text_ops = [{"op": "test", "path": str(ptr), "value": copy.deepcopy(node)}, shift, {"op": "replace", "path": str(ptr), "value": copy.deepcopy(NEW)},
+                            {"op": "test", "path": str(ptr), "value": copy.deepcopy(NEW)}]
+                want = R6902.apply(copy.deepcopy(doc), text_ops)
+                pobj = JSONPatch(unicode_escape=False).test(ptr, copy.deepcopy(node))
+                pobj = pobj.add(shift["path"], shift["value"]) if shift["op"] == "add" else pobj.remove(shift["path"])
+                pobj = pobj.replace(ptr, copy.deepcopy(NEW)).test(ptr, copy.deepcopy(NEW))
+                kk, r = apply(stats, c, "sequence", pobj, copy.deepcopy(doc))
+                if want[0] == "ok":
+                    if kk == "err":
+                        stats.fail("sequence:raised:%s" % type(r).__name__, c, "test / %s / replace / test through one pointer object %r on %s raised %s: %s" % (
+                            shift["op"], str(ptr), short(doc, 140), type(r).__name__, r))
+                    elif not jeq(r, want[1]):
+                        stats.fail("sequence:wrong-document:%s" % shift["op"], c, "test / %s %s / replace / test through one pointer object %r on %s gave %s, RFC 6902 gives %s" % (
+                            shift["op"], shift["path"], str(ptr), short(doc, 140), short(r, 180), short(want[1], 180)))
+                else:
+                    # after the shift the pointer may address something RFC 6902 cannot (e.g. "-1" now met an array: the library's
+                    # negative-index extension): not this property's claim either way
+                    stats.excluded["sequence after which the pointer is no longer RFC-resolvable"] += 1
+                stats.cls("sequence:" + shift["op"])
         if isn:
             stats.cls("nasty")
             for op in ("test", "replace", "remove"):
